@@ -44,6 +44,8 @@ REQUIRED_THEOREMS = [
     "roots_source_pow", "principalAngle_turn_bridge", "angleDiff_turn_bridge", "rootArgs_turn_bridge",
     "sign0_bridge", "projectToPlane_bridge", "intersect2_bridge", "clamp_bridge", "distSeg2_bridge", "area2_bridge", "angle3_bridge",
     "signedAngle_bridge", "angle_3pts_source_range_symm", "signed_angle_source_antisymm",
+    # relative parallelism test of intersect_2lines2D (repair be27fa8): extracted form, scale invariance, result on both lines
+    "gen_parallel_relative", "gen_parallel_test", "parallel2_scale_invariant", "parallel2_of_det_zero", "intersect2_on_both_lines",
     # frame conditions read off the source (Generated/C12W.lean): write sets reaching arguments, numpy.seterr calls
     "source_write_sets", "source_write_sets_cover", "source_no_seterr",
 ]
@@ -120,7 +122,9 @@ RULE = ("(a) histories of 4-14 operations on 3-6 caller arrays (dimension 1-6, d
         "lists (same values), every box and caller object the caller holds compared BY VALUE after every operation, pad right after "
         "union/intersection (result vs operands), primitives called with int Vec / int ndarray / float ndarray / lists / tuples / float32 "
         "where the unchanged code accepts them, the same object passed as two arguments) "
-        "on random and degenerate inputs, compared with exact arithmetic and with their identities; non-trivial = distinct case with at least "
+        "on random and degenerate inputs, compared with exact arithmetic and with their identities; scale family: intersect_2lines2D with directions / points "
+        "and circumcenter with triangles of size 2^-23 (~1e-7) ... 2^20 (~1e6) (parallel iff the directions are, never because they are short; circumcenter "
+        "must not raise on a well-shaped triangle of any size); non-trivial = distinct case with at least "
         "one box operation on an existing box returning a value (a) / a non-degenerate primitive evaluation (b)")
 
 DEFAULT_ERR = {"divide": "warn", "over": "warn", "under": "ignore", "invalid": "warn"}
@@ -489,6 +493,14 @@ def _run_hist(case, want_oracle):
 # ------------------------------------------------------------------------------------------------
 # (b) primitives
 # ------------------------------------------------------------------------------------------------
+def _well_shaped(ex, thr=Fraction(1, 10 ** 6)):
+    """exact test on the three points: |e1 x e2|^2 >= thr * |e1|^2 * |e2|^2 with e_i the edges at the first point (sin^2 of their angle)"""
+    e1 = [y - x for x, y in zip(ex[0], ex[1])]; e2 = [y - x for x, y in zip(ex[0], ex[2])]
+    n = [e1[1] * e2[2] - e1[2] * e2[1], e1[2] * e2[0] - e1[0] * e2[2], e1[0] * e2[1] - e1[1] * e2[0]]
+    a, b = sum(x * x for x in e1), sum(x * x for x in e2)
+    return a > 0 and b > 0 and sum(x * x for x in n) >= thr * a * b
+
+
 def _fv(v):
     return [Fraction(c) for c in v]
 
@@ -546,6 +558,12 @@ def _run_prim(case, want_oracle):
             how, out = mon.call(fn.__name__, fn, tuple(vs))
             if how == "raise":
                 obs = _map_exc(out)
+                if f == "circ" and want_oracle and _well_shaped(ex):
+                    # "circumcentres are equidistant", for triangles of EVERY size: a well-shaped triangle has a circumcentre
+                    law("circumcenter/raises-on-well-shaped-triangle",
+                        "circumcenter raises on a triangle whose edges at the first vertex make an angle with sin^2 >= 1e-6 "
+                        "(parallelism of the bisectors judged by an absolute bound on a determinant that scales with the square of the size?)",
+                        f"{obs}; edge lengths^2 {[str(sum((y - x) ** 2 for x, y in zip(ex[0], e))) for e in ex[1:]]}")
             elif f in ("cross", "pplane"):
                 obs = "V " + _fmt_vec(out) if all(math.isfinite(float(x)) for x in out) else "degenerate"
                 if want_oracle and f == "cross":
@@ -586,6 +604,11 @@ def _run_prim(case, want_oracle):
                     d = [math.dist(c, [float(x) for x in e]) for e in ex]
                     if max(d) - min(d) > _tol(max(d) + 1) * 1e3:
                         law("circumcenter/equidistant", "the circumcentre is not equidistant from the three points", f"distances {d}")
+                    elif "scale" in case and _well_shaped(ex, Fraction(1, 10000)):
+                        # scale family: the tolerance follows the size of the triangle (no absolute floor)
+                        size = max(math.dist([float(x) for x in ex[0]], [float(x) for x in e]) for e in ex[1:])
+                        if max(d) - min(d) > 1e-6 * (max(d) + size):
+                            law("circumcenter/equidistant", "the circumcentre is not equidistant from the three points", f"distances {d} (triangle of size {size})")
             elif f == "angle3":
                 obs = "fl:" + _fr(out)
                 if want_oracle:
@@ -851,6 +874,11 @@ def _compare(case, model, impl):
         sg, s2, c = model.split()[1:4]
         want = int(sg) * math.atan2(math.sqrt(Fraction(s2)), float(Fraction(c)))
         return None if abs(want - _num(impl[3:])) <= 1e-9 else f"signed_angle_2vec3D: model {want} vs implementation {impl}"
+    if f == "isect" and model.startswith("V ") and impl.startswith("V ") and "scale" in case:
+        mt, it = model.split()[1:], impl.split()[1:]
+        big = max([abs(float(Fraction(c))) for a in (case["args"][0], case["args"][2]) for c in a] + [abs(float(Fraction(x))) for x in mt])
+        ok = len(mt) == len(it) and all(abs(float(Fraction(x)) - _num(y)) <= 1e-7 * big for x, y in zip(mt, it))
+        return None if ok else f"intersect_2lines2D: model '{model[:100]}' vs implementation '{impl[:100]}' (inputs of size {big})"
     if model == "degenerate":
         return None     # division by an exactly zero denominator: the code returns nan/inf or raises, nothing is claimed
     return None if _cmp_field(model, impl) else f"{f}: model '{model[:120]}' vs implementation '{impl[:120]}'"
@@ -874,7 +902,13 @@ def classify(case, obs):
             head = r.split(" ; ")[0]
             if head.startswith("err") or head in ("nobox", "undef"): ks.append(f"outcome:{o[0]}:{head}")
         return ks
-    return ["prim:" + case["f"], "prim-args-as:" + _prim_rep(case), "prim-same-object:" + ("yes" if case.get("same") else "no"),
+    if "scale" in case:
+        e = [round(math.log2(float(Fraction(x)))) for x in case["scale"]]
+        extra = ["prim-scale:" + case["f"] + ":" + ("tiny" if min(e) <= -14 else "huge" if max(e) >= 14 else "moderate"),
+                 "prim-scale-result:" + case["f"] + ":" + ("none/err" if (obs in ("none", "degenerate") or obs.startswith("err")) else "value")]
+    else:
+        extra = []
+    return extra + ["prim:" + case["f"], "prim-args-as:" + _prim_rep(case), "prim-same-object:" + ("yes" if case.get("same") else "no"),
             "prim-outcome:" + ("err" if obs.startswith("err") else obs if obs in ("degenerate", "none") else "value")]
 
 
@@ -963,7 +997,11 @@ def _v(rng, d, kind=None):
     return [_dy(rng) for _ in range(d)]
 
 
+_SCALES = [-23, -20, -14, -7, 0, 0, 7, 14, 20]
+
+
 def _gen_prim(rng):
+    scale = None
     f = rng.choice(["cross", "det2", "det3", "rot2", "rotax", "circ", "isect", "pplane", "dseg", "area2", "angle3", "sangle", "cotan",
                     "pangle", "adiff", "roots", "circ", "rotax", "sangle", "pangleT", "adiffT", "rootsT", "pangleT", "adiffT", "rootsT"])
     if f in ("cross",): args = [_v(rng, 3), _v(rng, 3)]
@@ -974,6 +1012,16 @@ def _gen_prim(rng):
         d1 = _v(rng, 2)
         d2 = [G.fs(Fraction(c) * 2) for c in d1] if rng.random() < 0.2 else _v(rng, 2)
         args = [_v(rng, 2), d1, _v(rng, 2), d2]
+        if rng.random() < 0.5:
+            # scale family: the two directions (and the points) at sizes 2^-23 (~1e-7) ... 2^20 (~1e6), independently: parallel iff the
+            # sine of the angle is tiny (here: exactly parallel), never because a direction is short or the determinant is large
+            s1, s2, sp = (Fraction(2) ** rng.choice(_SCALES) for _ in range(3))
+            d1 = _v(rng, 2, "gen" if rng.random() < 0.8 else "axis")
+            if all(Fraction(c) == 0 for c in d1): d1 = ["1", "0"]
+            d2 = list(d1) if rng.random() < 0.25 else _v(rng, 2, rng.choice(["gen", "axis"]))
+            args = [[G.fs(Fraction(c) * sp) for c in _v(rng, 2)], [G.fs(Fraction(c) * s1) for c in d1],
+                    [G.fs(Fraction(c) * sp) for c in _v(rng, 2)], [G.fs(Fraction(c) * s2) for c in d2]]
+            scale = [str(s1), str(s2), str(sp)]
     elif f == "pplane": args = [_v(rng, 3), _v(rng, 3, rng.choice(["gen", "axis", "small"])), _v(rng, 3)]
     elif f == "dseg":
         a = _v(rng, 2); b = list(a) if rng.random() < 0.15 else _v(rng, 2)
@@ -985,6 +1033,11 @@ def _gen_prim(rng):
         elif r < 0.18: c = list(a)
         else: c = _v(rng, 3)
         args = [a, b, c]
+        if f == "circ" and rng.random() < 0.5:
+            # scale family: the same triangle at sizes 2^-23 (~1e-7) ... 2^20 (~1e6)
+            sc_ = Fraction(2) ** rng.choice(_SCALES)
+            args = [[G.fs(Fraction(x) * sc_) for x in v] for v in args]
+            scale = [str(sc_)]
     elif f == "sangle":
         a, b = _v(rng, 3, "gen"), _v(rng, 3, rng.choice(["gen", "small"]))
         n = list(a) if rng.random() < 0.2 else _v(rng, 3, rng.choice(["gen", "axis"]))
@@ -1008,8 +1061,9 @@ def _gen_prim(rng):
     else:
         args = [_dy(rng), _dy(rng), str(rng.randint(1, 8))]
     c = {"t": "prim", "f": f, "args": args}
+    if scale: c["scale"] = scale
     if f in ("rot2", "rotax"): c["angle2"] = G.fs(Fraction(rng.randint(-64, 64), 8))
-    if f in _PRIM_REPS and rng.random() < 0.45:
+    if f in _PRIM_REPS and rng.random() < 0.45 and not (scale and any(Fraction(x).denominator != 1 for a in args for x in a)):
         rep = rng.choice(_PRIM_REPS[f])
         nv = {"rot2": 1, "rotax": 2}.get(f, len(args))
         if rep in ("vecint", "ndint", "intlist"):
